@@ -27,6 +27,8 @@ FLAVOURS = {
     "clang20": ("clang++", ["-std=c++20", "-O1", "-fsanitize=address,undefined",
                             "-fno-sanitize-recover=undefined", "-DNDEBUG"]),
     "nocon20": ("g++", ["-std=c++20", "-O1", "-DNDEBUG", "-DGCH_DISABLE_CONCEPTS"]),
+    "nostrong20": ("g++", ["-std=c++20", "-O1", "-fsanitize=address", "-DNDEBUG",
+                           "-DGCH_NO_STRONG_EXCEPTION_GUARANTEES"]),
 }
 for std in ("11", "14", "17", "20", "23"):
     FLAVOURS["g" + std] = ("g++", ["-std=c++" + ("2b" if std == "23" else std), "-O1", "-DNDEBUG"])
